@@ -95,6 +95,41 @@ def tick_boundary(ctx, cg):
     return tick, tr
 
 
+def _handler_names(h):
+    if h.type is None:
+        return {'Exception'}
+    if isinstance(h.type, ast.Tuple):
+        return {dotted(x) for x in h.type.elts}
+    return {dotted(h.type)}
+
+
+def _caught_before_boundary(cg, reach, f, raise_node, cls):
+    """Is the raised class caught inside f, or at every call site of f on
+    the VM paths (e.g. a conversion helper called under `except
+    ValueError`)?"""
+    ok_names = {cls, 'Exception'} | set(HIERARCHY.get(cls, ()))
+
+    def covered(node, fnode):
+        for a in ancestors(node):
+            if a is fnode:
+                break
+            if isinstance(a, ast.Try) and any(
+                    node is y for b in a.body for y in ast.walk(b)):
+                if any(_handler_names(h) & ok_names for h in a.handlers):
+                    return True
+        return False
+    if covered(raise_node, f.node):
+        return True
+    sites = []
+    for g in reach:
+        if f not in cg.edges.get(g, ()):
+            continue
+        for call, targets in cg.sites.get(g, ()):
+            if f in targets:
+                sites.append(covered(call, g.node))
+    return bool(sites) and all(sites)
+
+
 def explicit_raises(ctx, cg):
     repo = ctx.repo
     rule = 'C07.handlers-raise-only-mapped-exceptions'
@@ -128,6 +163,8 @@ def explicit_raises(ctx, cg):
                 continue
             if cls == 'KeyError' and f.module.name == 'qvm.memlayout':
                 continue   # compile-time lookups, not in handler paths
+            if _caught_before_boundary(cg, reach, f, r, cls):
+                continue   # a helper whose callers all catch the class
             ctx.finding(rule, construct,
                         f'{f.qualname} raises {cls}, which neither tick() '
                         f'nor Device.execute converts into a trap',
